@@ -376,6 +376,9 @@ def _loop_common(P, st, spec, cond_fn, body_prefix=None, label=None):
         except BreakSig:
             exited = True
         if exited:
+            if spec.get("no_break"):
+                # the contract states that no iteration may cut the loop short (later elements would be skipped)
+                P.prove(f"{label}.an_iteration_never_ends_the_loop_early", False)
             return  # continue after the loop with the state at `break`
         # a field of an object that existed before the loop may only be written if the contract havocs it at the loop head
         for (o_, name_) in P.ghost.get("writes", [])[nwrites0:]:
